@@ -42,7 +42,11 @@ func New(seed int64, p Profile) *G {
 func (g *G) str(field string) string {
 	g.ctr++
 	if g.P.Serialisable {
-		return fmt.Sprintf("%s-%s%s%d", safeWords[g.R.Intn(len(safeWords))], g.P.Tag, field[:1], g.ctr)
+		w := safeWords[g.R.Intn(len(safeWords))]
+		if g.R.Intn(6) == 0 {
+			w = []string{"ß-ünï", "名前", "café", "naïve—dash", "emoji-🙂"}[g.R.Intn(5)] // multi-byte sequences (chunk boundaries fall inside them)
+		}
+		return fmt.Sprintf("%s-%s%s%d", w, g.P.Tag, field[:1], g.ctr)
 	}
 	w := words[g.R.Intn(len(words))]
 	if w == "" && g.R.Intn(2) == 0 {
